@@ -152,6 +152,44 @@ class CollectFootnotes(Transform):
             self.document += footnote
 
 
+class CheckTransitions(Transform):
+    """Remove transitions that start a container other than the document or a section.
+
+    The docutils ``Transitions`` transform (priority 830) asserts that a transition
+    which is the first element of its parent is in a document or section.
+    A thematic break can end up first in e.g. a block quote or admonition,
+    also after earlier transforms have removed or moved what preceded it
+    (footnotes, comments, a table of contents), so this is checked just before.
+    """
+
+    default_priority = 829
+
+    def apply(self, **kwargs: t.Any) -> None:
+        """Apply the transform."""
+        for node in list(findall(self.document)(nodes.transition)):
+            parent = node.parent
+            if parent is None or isinstance(parent, nodes.document | nodes.section):
+                continue
+            index = parent.index(node)
+            if index == 0 or (
+                isinstance(parent[0], nodes.title)
+                and (
+                    index == 1
+                    or (isinstance(parent[1], nodes.subtitle) and index == 2)
+                )
+            ):
+                warning = create_warning(
+                    self.document,
+                    f"A thematic break cannot be the first element of a {parent.tagname}",
+                    MystWarnings.NOT_SUPPORTED,
+                    line=node.line,
+                )
+                if warning is not None:
+                    parent.replace(node, warning)
+                else:
+                    parent.remove(node)
+
+
 class ResolveAnchorIds(Transform):
     """Transform for resolving `[name](#id)` type links."""
 
